@@ -1036,3 +1036,92 @@ def r6_12(run):
 
 
 RULES.append(("R6.12", r6_12))
+
+
+def _is_index_lookup(t):
+    """get_lookup(net, <kind>, "index" / "index_active_*")[<table>]"""
+    return isinstance(t, tuple) and t and t[0] == "idx" and t[1][0] == "call" and t[1][1][0] == "f" and t[1][1][1].endswith(".get_lookup") \
+        and len(t[1][2]) == 3 and t[1][2][2][0] == "c" and str(t[1][2][2][1]).startswith("index")
+
+
+def component_array_index_kinds(ix):
+    """[(class, column constant, what the writer stores: "label" | "position" | None, [(what a reader needs, function, node)])] for
+    the columns of the component arrays that hold references to other elements"""
+    from ..arrnf import ANF, walk, key as tkey
+    rows = []
+    for c in ix.components():
+        w = ix.lookup_method(c, "create_component_array")
+        if w is None or w.cls.name == "Component":
+            continue
+        try:
+            rw = ANF(ix, w, strip=False).run()
+        except AnalysisError:
+            continue
+        written = {}
+        for e in rw.stores():
+            if len(e.index) == 2 and e.index[1][0] == "attr" and e.index[1][1] in (("n", "cls"), ("n", "self")):
+                col = e.index[1][2]
+                v = e.value
+                through_lookup = any(isinstance(x, tuple) and x and x[0] == "idx" and _is_index_lookup(x[1]) for x in walk(v))
+                from_ref_col = any(isinstance(x, tuple) and x and x[0] in ("attr", "idx") and (
+                    (x[0] == "attr" and "junction" in str(x[2])) or (x[0] == "idx" and x[2] and x[2][0][0] == "c" and "junction" in str(x[2][0][1])))
+                    for x in walk(v))
+                if through_lookup:
+                    written[col] = "position"
+                elif from_ref_col:
+                    written[col] = "label"
+        if not written:
+            continue
+        readers = {col: [] for col in written}
+        for m in ix.mro(c):
+            for f in m.methods.values():
+                if f.name == "create_component_array" or not any(isinstance(n, ast.Attribute) and n.attr in written for n in ast.walk(f.raw_node)):
+                    continue
+                try:
+                    r = ANF(ix, f, strip=False).run()
+                except AnalysisError:
+                    continue
+                for e in r.events:
+                    for t in (getattr(e, "term", None), getattr(e, "value", None), getattr(e, "base", None)) + tuple(getattr(e, "index", None) or ()):
+                        if not isinstance(t, tuple):
+                            continue
+                        for x in walk(t):
+                            if not (isinstance(x, tuple) and x and x[0] == "idx" and x[2]):
+                                continue
+                            for col in written:
+                                uses = [y for i_ in x[2][:1] for y in walk(i_) if isinstance(y, tuple) and y and y[0] == "idx" and len(y[2]) == 2
+                                        and y[2][1] == ("attr", ("n", "cls"), col)]
+                                if not uses:
+                                    continue
+                                if _is_index_lookup(x[1]):
+                                    need = "label"
+                                elif x[1] in (("n", "node_pit"), ("n", "branch_pit")):
+                                    need = "position"
+                                else:
+                                    continue
+                                if (need, f.qualname) not in [(a, b.qualname) for a, b, _ in readers[col]]:
+                                    readers[col].append((need, f, e.node))
+        for col, kind in written.items():
+            rows.append((c.name, col, kind, readers[col]))
+    return rows
+
+
+def r6_13(run):
+    """a reference to another element that is parked in a component array is parked as what its readers take it for: a junction
+    LABEL if the hooks translate it through an index lookup, a pit POSITION if they index the pit with it directly.  A position put
+    through the label lookup (or a label used as a position) names the right row only while labels and positions coincide, i.e. for a
+    net whose junction index is 0..n-1 in creation order."""
+    ix = run.index
+    rows = component_array_index_kinds(ix)
+    n = 0
+    for cname, col, kind, readers in rows:
+        for need, f, node in readers:
+            n += 1
+            run.analysed(f)
+            run.ob("%s.%s|%s|stored-as-read" % (cname, col, f.name), need == kind,
+                   "%s.%s is stored as a %s and read by %s as a %s" % (cname, col, kind, f.name, need), run.where(f, node))
+    run.stat("reference_columns_in_component_arrays", len(rows))
+    run.floor(1)
+
+
+RULES.append(("R6.13", r6_13))
